@@ -92,8 +92,12 @@ Genuine == GenRecv \cup GenAck \cup GenRecvClean
 
 -------------------------------------------------------------------------------
 (* alterations: exactly one aspect of a genuine message is changed *)
+\* Alias(x): another spelling of the chain name x - the harness writes it with one character percent-encoded
+\* ("testchain0" -> "testchain%30").  No chain has that name, so to the specification it is simply an unknown name.
+Alias(x) == x \o "q"
 AltPkt(p) ==
-     {[p EXCEPT !.data = v]  : v \in Data \ {p.data}}
+     {[p EXCEPT !.src = Alias(p.src)], [p EXCEPT !.dst = Alias(p.dst)]}
+\cup {[p EXCEPT !.data = v]  : v \in Data \ {p.data}}
 \cup {[p EXCEPT !.seq = v]   : v \in (1..(MaxSeq + 1)) \ {p.seq}}
 \cup {[p EXCEPT !.src = v]   : v \in Names \ {p.src}}
 \cup {[p EXCEPT !.dst = v]   : v \in Names \ {p.dst}}
@@ -120,7 +124,7 @@ AltMsg(m0) ==
     [] m.act = "RecvClean" ->
           {[m EXCEPT !.cp.seq = v, !.tag = "seq"] : v \in (1..(MaxSeq + 1)) \ {m.cp.seq}}
      \cup {[m EXCEPT !.cp.relay = v, !.tag = "relay"] : v \in Relays \ {m.cp.relay}}
-     \cup {[m EXCEPT !.cp.src = v, !.tag = "src"] : v \in Chains \ {m.cp.src}}
+     \cup {[m EXCEPT !.cp.src = v, !.tag = "src"] : v \in (Chains \cup {Alias(m.cp.src)}) \ {m.cp.src}}
      \cup {[m EXCEPT !.proof = f, !.tag = "proof"] : f \in AltProof(m.proof)}
      \cup {[m EXCEPT !.c = v, !.tag = "chain"] : v \in Chains \ {m.c}}
 
